@@ -413,13 +413,279 @@ def rand_program(rng):
     raise Bad(root)
 
 
+# ------------------------------------------------------------------ tick-level programs (C30)
+TARITY = {"b0": 0, "b1": 0, "cyc": 0, "map": 1, "filter": 1, "flatmap": 1, "filtermap": 1, "enumerate": 1, "unique": 1,
+          "sort": 1, "scan": 1, "limit": 1, "fold": 1, "reduce": 1, "count": 1, "max": 1, "min": 1, "first": 1, "last": 1,
+          "tostream": 1, "kfold": 1, "chain": 2, "xsing": 2, "join": 2, "antijoin": 2, "notin": 2, "defer": 1, "across": 1}
+BATCH = "nondet!(/** the tick's batch */)"
+
+
+def tparse(tokens, i=0):
+    if i >= len(tokens):
+        raise Bad("short")
+    op, _, arg = tokens[i].partition(":")
+    ar = TARITY.get(op)
+    if ar is None:
+        raise Bad("tick op " + op)
+    kids = []
+    j = i + 1
+    for _ in range(ar):
+        k, j = tparse(tokens, j)
+        kids.append(k)
+    return (op, arg, kids), j
+
+
+def temit(t):
+    """-> (rust expr, kind in tT/tN/tsing/topt, elem)"""
+    op, arg, kids = t
+    if op in ("b0", "b1"):
+        return f"in{op[1]}.clone().batch(&tick, {BATCH})", "tT", "I"
+    if op == "cyc":
+        return "cyc.clone()", "tT", "I"
+    if op == "map":
+        e, k, el = temit(kids[0])
+        ein, eout, cl, _ = MAPF[arg]
+        if el != ein:
+            raise Bad("elem")
+        return f"{e}.map(q!({cl}))", k, eout
+    if op == "filter":
+        e, k, el = temit(kids[0])
+        ein, cl, _ = PREDF[arg]
+        if el != ein:
+            raise Bad("elem")
+        return f"{e}.filter(q!({cl}))", ("topt" if k == "tsing" else k), el
+    if op == "flatmap":
+        e, k, el = temit(kids[0])
+        ein, eout, cl = FLATF[arg]
+        if el != ein or k != "tT":
+            raise Bad("flatmap")
+        return f"{e}.flat_map_ordered(q!({cl}))", k, eout
+    if op == "filtermap":
+        e, k, el = temit(kids[0])
+        ein, eout, cl = OPTF[arg]
+        if el != ein or k != "tT":
+            raise Bad("filtermap")
+        return f"{e}.filter_map(q!({cl}))", k, eout
+    if op in ("enumerate", "unique", "sort", "scan", "limit", "fold", "reduce", "count", "max", "min", "first", "last",
+              "kfold", "defer", "across"):
+        e, k, el = temit(kids[0])
+        if op == "defer":
+            if k not in ("tT",):
+                raise Bad("defer")
+            return f"{e}.defer_tick()", k, el
+        if k != "tT":
+            raise Bad(op + " needs a stream")
+        if op == "enumerate":
+            if el != "I":
+                raise Bad("enumerate")
+            return f"{e}.enumerate()", "tT", "E"
+        if op == "unique":
+            return f"{e}.unique()", "tT", el
+        if op == "sort":
+            return f"{e}.sort()", "tT", el
+        if op == "scan":
+            if el != "I":
+                raise Bad("scan")
+            i, f = SCANF[arg]
+            return f"{e}.scan(q!({i}), q!({f}))", "tT", "I"
+        if op == "limit":
+            return f"{e}.limit(q!({int(arg)}usize))", "tT", el
+        if op == "fold":
+            comm, i, f = FOLDF[arg]
+            if el != "I":
+                raise Bad("fold")
+            return f"{e}.fold(q!({i}), q!({f}))", "tsing", "I"
+        if op == "reduce":
+            if el != "I":
+                raise Bad("reduce")
+            return f"{e}.reduce(q!({REDF[arg]}))", "topt", "I"
+        if op == "count":
+            return f"{e}.count().map(q!(|c| c as i64))", "tsing", "I"
+        if op in ("max", "min", "first", "last"):
+            return f"{e}.{op}()", "topt", el
+        if op == "kfold":
+            comm, i, f = FOLDF[arg]
+            if el != "P":
+                raise Bad("kfold")
+            return f"{e}.into_keyed().fold(q!({i}), q!({f})).entries()", "tN", "P"
+        if op == "across":
+            comm, i, f = FOLDF[arg]
+            if el != "I":
+                raise Bad("across")
+            return f"{e}.across_ticks(|s| s.fold(q!({i}), q!({f})))", "tsing", "I"
+    if op == "tostream":
+        e, k, el = temit(kids[0])
+        if k not in ("tsing", "topt"):
+            raise Bad("tostream")
+        return f"{e}.into_stream()", "tT", el
+    if op in ("chain", "join", "antijoin", "notin", "xsing"):
+        ea, ka, la = temit(kids[0])
+        eb, kb, lb = temit(kids[1])
+        if ka != "tT":
+            raise Bad(op)
+        if op == "xsing":
+            if kb not in ("tsing", "topt") or la != "I" or lb != "I":
+                raise Bad("xsing")
+            return f"{ea}.cross_singleton({eb})", "tT", "P"
+        if kb != "tT":
+            raise Bad(op)
+        if op == "chain":
+            if la != lb:
+                raise Bad("chain")
+            return f"{ea}.chain({eb})", "tT", la
+        if op == "join":
+            if la != "P" or lb != "P":
+                raise Bad("join")
+            return f"{ea}.join({eb})", "tT", "J"
+        if op == "antijoin":
+            if la != "P" or lb != "I":
+                raise Bad("antijoin")
+            return f"{ea}.anti_join({eb})", "tT", "P"
+        if op == "notin":
+            if la != lb:
+                raise Bad("notin")
+            return f"{ea}.filter_not_in({eb})", "tT", la
+    raise Bad("tick op " + op)
+
+
+def temit_program(tokens):
+    """-> (body lines, kind)"""
+    lines = []
+    if tokens[0] == "tick":
+        out, j = tparse(tokens, 1)
+        nxt = None
+    elif tokens[0] == "tcyc":
+        nxt, j = tparse(tokens, 1)
+        out, j = tparse(tokens, j)
+        lines.append("let (cyc_complete, cyc) = tick.cycle::<Stream<i64, Tick<P<'a>>, Bounded, TotalOrder, ExactlyOnce>, _>();")
+    else:
+        raise Bad("not a tick program")
+    if j != len(tokens):
+        raise Bad("trailing")
+    e, k, el = temit(out)
+    if nxt is not None:
+        en, kn, eln = temit(nxt)
+        if kn != "tT" or eln != "I":
+            raise Bad("cycle type")
+        lines.append(f"cyc_complete.complete_next_tick({en});")
+    if k == "tN":
+        lines.append(f"{e}.all_ticks().assume_ordering::<TotalOrder>({OBS}).embedded_output(\"out\");")
+    else:
+        lines.append(f"{e}.all_ticks().embedded_output(\"out\");")
+    return lines, ("tN" if k == "tN" else "tT")
+
+
+HAND_C30 = """
+tick map:inc b0
+tick filter:even b0
+tick flatmap:dup b0
+tick fold:sum b0
+tick fold:poly b0
+tick reduce:rmax b0
+tick reduce:rpoly b0
+tick count b0
+tick max b0
+tick min b0
+tick first b0
+tick last b0
+tick limit:2 b0
+tick limit:0 b0
+tick limit:3 flatmap:dup b0
+tick sort b0
+tick sort map:kv3 b0
+tick enumerate b0
+tick map:idx enumerate filter:pos b0
+tick unique b0
+tick scan:runsum b0
+tick scan:stop b0
+tick xsing b0 fold:sum b1
+tick xsing b0 max b1
+tick xsing b0 count b0
+tick map:add2 xsing b0 filter:even fold:sum b1
+tick join map:kv3 b0 map:kv3 b1
+tick map:flat join map:kv3 b0 map:kv3 b1
+tick join map:kv3 b0 map:kv3 b0
+tick antijoin map:kv3 b0 map:fst map:kv3 b1
+tick notin b0 b1
+tick chain b0 b1
+tick chain map:inc b0 b0
+tick kfold:sum map:kv3 b0
+tick kfold:poly map:kv3 b0
+tick defer b0
+tick defer defer b0
+tick chain defer b0 b0
+tick notin b0 defer b0
+tick fold:sum chain defer b0 b1
+tick enumerate chain defer b0 b0
+tick count defer unique b0
+tick across:sum b0
+tick across:cnt b0
+tick across:poly b0
+tick across:sum filter:even b0
+tick xsing b0 across:sum b1
+tick tostream across:maxf b0
+tcyc chain cyc b0 cyc
+tcyc map:inc chain cyc b0 cyc
+tcyc b0 fold:sum chain cyc b0
+tcyc limit:3 chain b0 cyc sort chain cyc b1
+tcyc unique chain cyc b0 notin b0 cyc
+tcyc tostream fold:sum chain cyc b0 cyc
+""".strip().splitlines()
+
+HAND_C29 = """
+kfold:poly map:kv3 map:inc in0
+kscan:stop map:kv3 filter:pos in0
+kfold:poly kscan:runsum map:kv3 map:dbl in0
+kscan:runsum map:kv3 map:neg filter:small in0
+kfold:maxf map:kv3 in0
+enumerate scan:runsum in0
+scan:stop map:dbl in0
+map:idx enumerate flatmap:dup in0
+""".strip().splitlines()
+
+
+def interleave_ok(tokens):
+    """per-key results must not change under key-respecting shuffles of in0: a keyed operator whose input is
+    `map:kv3` over element-wise residue-class-preserving stages of in0 only"""
+    if not any(t.split(":")[0] in ("kscan", "kfold") for t in tokens):
+        return False
+    if "in1" in tokens or tokens.count("in0") != 1:
+        return False
+    seen_kv3 = False
+    for t in tokens:
+        op, _, arg = t.partition(":")
+        if not seen_kv3:
+            if op in ("kscan", "kfold") or (op == "map" and arg == "vinc") or (op == "filter" and arg == "vodd"):
+                continue
+            if op == "map" and arg == "kv3":
+                seen_kv3 = True
+                continue
+            return False
+        else:
+            if op == "in0" or (op == "map" and arg in ("inc", "dbl", "neg")) or (op == "filter" and arg in ("even", "pos", "small")):
+                continue
+            return False
+    return seen_kv3
+
+
+def tags_for(toks, base):
+    tags = [base]
+    kind = emit(parse(toks))[1]
+    ops = [t.split(":")[0] for t in toks]
+    if kind in ("sT", "sK") or any(o in ("kscan", "kfold") for o in ops):
+        tags.append("c29")
+    if interleave_ok(toks):
+        tags.append("c29x")
+    return " ".join(dict.fromkeys(tags))
+
+
 def build_corpus():
     progs = []   # (tags, kind, term)
     seen = set()
     for line in HAND_C28:
         toks = line.split()
         e, k, el = emit(parse(toks))
-        progs.append(("c28", k, " ".join(toks)))
+        progs.append((tags_for(toks, "c28"), k, " ".join(toks)))
         seen.add(" ".join(toks))
     rng = random.Random(20260921)
     n = 0
@@ -435,8 +701,20 @@ def build_corpus():
         if s in seen:
             continue
         seen.add(s)
-        progs.append(("c28 gen", k, s))
+        progs.append((tags_for(toks, "c28") + " gen", k, s))
         n += 1
+    for line in HAND_C29:
+        toks = line.split()
+        s = " ".join(toks)
+        if s in seen:
+            continue
+        seen.add(s)
+        e, k, el = emit(parse(toks))
+        progs.append((tags_for(toks, "c28"), k, s))
+    for line in HAND_C30:
+        toks = line.split()
+        lines, k = temit_program(toks)
+        progs.append(("c30", k, " ".join(toks)))
     return progs
 
 
@@ -444,7 +722,7 @@ def render(progs):
     out = ["// GENERATED by gen_programs.py — do not edit.",
            "#![allow(unused_variables, clippy::all)]",
            "use hydro_lang::prelude::*;",
-           "use hydro_lang::live_collections::stream::TotalOrder;",
+           "use hydro_lang::live_collections::stream::{ExactlyOnce, TotalOrder};",
            "",
            "type P<'a> = Process<'a, ()>;",
            ""]
@@ -453,13 +731,18 @@ def render(progs):
     bld = ["// GENERATED by gen_programs.py — do not edit.", "fn generate_all(out_dir: &str) {"]
     for i, (tags, kind, term) in enumerate(progs):
         name = f"p{i:03d}"
-        expr, k, el = emit(parse(term.split()))
-        assert k == kind
         out.append(f"/// `{term}` : {kind}")
         out.append(f"pub fn {name}<'a>(in0: Stream<i64, P<'a>>, in1: Stream<i64, P<'a>>) {{")
         out.append("    let p = in0.location().clone();")
         out.append("    let tick = p.tick();")
-        out.append("    " + finish(expr, kind))
+        if term.split()[0] in ("tick", "tcyc"):
+            lines, k = temit_program(term.split())
+            assert k == kind
+            out += ["    " + l for l in lines]
+        else:
+            expr, k, el = emit(parse(term.split()))
+            assert k == kind
+            out.append("    " + finish(expr, kind))
         out.append("}")
         out.append("")
         lst.append(f'prog!({name});')
